@@ -78,13 +78,13 @@ def reg_line(s, forced, flags, infos):
 
 
 # ---------------------------------------------------------------- generators
-def exhaustive_cases(maxregs, nbpus=4, with_restrict=False):
+def exhaustive_cases(maxregs, nbpus=4, minregs=1, probes=None):
     """every sequence of 1..maxregs registrations over the non-empty subsets
     of nbpus PUs; forced efficiencies and infos are a function of position and
     mask so that merges/splits of infos and all ranking outcomes occur."""
     subsets = list(range(1, 1 << nbpus))
     n = 0
-    for k in range(1, maxregs + 1):
+    for k in range(minregs, maxregs + 1):
         for seq in itertools.product(subsets, repeat=k):
             lines = ["case x%d_%s %d" % (k, "_".join("%x" % m for m in seq), nbpus)]
             for j, m in enumerate(seq):
@@ -93,7 +93,7 @@ def exhaustive_cases(maxregs, nbpus=4, with_restrict=False):
                 if m & 1:
                     infos.append(("odd", "1"))
                 lines.append(reg_line(BS(m), forced, 0, infos if (m + j) % 5 else None))
-            for q in subsets:
+            for q in (subsets if probes is None else [seq[0], seq[-1], seq[0] | seq[-1], (seq[0] ^ 0xf) or 1][:probes]):
                 lines.append("getby f:%x 0" % q)
             yield lines
             n += 1
@@ -207,6 +207,41 @@ def random_case(rng, name, nbpus=16, maxops=12, p_clean_after_restrict=0.75):
             lines.append(rng.choice(["getnr 0", "getinfo %d 0" % rng.randrange(6), "rank"]))
     for p in pieces[:4]:
         lines.append("getby %s 0" % p.show())
+    return lines
+
+
+def info_rank_case(rng, name, nbpus=8):
+    """no forced efficiencies; every registration carries core type and/or
+    frequencies so that the info-based strategies (all HWLOC_CPUKINDS_RANKING
+    values) succeed, fail on duplicates, or lack one attribute"""
+    lines = ["case %s %d" % (name, nbpus)]
+    bits = list(range(nbpus))
+    rng.shuffle(bits)
+    k = rng.randint(2, 4)
+    cuts = sorted(rng.sample(range(1, nbpus), k - 1))
+    parts = [bits[a:b] for a, b in zip([0] + cuts, cuts + [nbpus])]
+    style = rng.choice(["all", "all", "noct", "nobase", "nomax", "dupfreq", "partial"])
+    freqs = rng.sample(range(800, 4000, 100), 2 * k)
+    for j, part in enumerate(parts):
+        m = sum(1 << b for b in part)
+        infos = []
+        if style != "noct" and not (style == "partial" and j == 0):
+            infos.append(("CoreType", rng.choice(["IntelAtom", "IntelCore"])))
+        if style != "nomax":
+            infos.append(("FrequencyMaxMHz", str(freqs[0] if style == "dupfreq" else freqs[j])))
+        if style != "nobase":
+            infos.append(("FrequencyBaseMHz", str(freqs[k] if style == "dupfreq" else freqs[k + j])))
+        rng.shuffle(infos)
+        lines.append(reg_line(BS(m), -1, 0, infos))
+    envs = [e for e in ENVS if e]
+    rng.shuffle(envs)
+    for e in envs[:rng.randint(3, len(envs))]:
+        lines.append("env " + hexs(e))
+        lines.append("rank")
+    if rng.random() < 0.5:
+        lines.append("xml")
+    if rng.random() < 0.5:
+        lines.append("restrict " + BS(rng.getrandbits(nbpus) | 1 << bits[0]).show())
     return lines
 
 
@@ -325,10 +360,16 @@ def rc_err(resline):
 
 
 # ---------------------------------------------------------------- executable specification
-def spec_check(script, transcript):
+def spec_check(script, transcript, stats=None):
     """Evaluate the C15 statement on one implementation transcript.
-    Returns a list of (key, message)."""
+    Returns a list of (key, message).  `stats` (dict) counts how often the
+    hypotheses of the conditional parts of the statement were met."""
     bad = []
+    if stats is None:
+        stats = {}
+
+    def bump(k):
+        stats[k] = stats.get(k, 0) + 1
     steps = parse_steps(script, transcript)
     nbpus = int(script[0].split()[2])
     topo = BS((1 << nbpus) - 1)
@@ -474,6 +515,10 @@ def spec_check(script, transcript):
             k_forced = lastf
             ks[i] = k + (k_forced,)
         effs = [k[1] for k in ks]
+        if op == "restrict" and changed and d.nr != prev.nr:
+            bump("restrict_removed_kind")
+        if len(ks) >= 2:
+            bump("ranked" if effs[0] == 0 else "all_unknown")
         if not (all(e == -1 for e in effs) or effs == list(range(len(ks)))):
             bad.append(("efficiencies", "%s: efficiencies %r are neither all -1 nor 0..nr-1 in order" % (where, effs)))
         if len(ks) == 1 and effs != [0]:
@@ -484,6 +529,7 @@ def spec_check(script, transcript):
         ranked_now = (op == "reg" and changed) or op in ("rank", "xml") or (op == "restrict" and changed and d.nr != prev.nr)
         if ranked_now and len(ks) >= 2 and env in (None, "default", "forced_efficiency", "bogus", "") \
                 and all(x is not None and x >= 0 for x in forced) and len(set(forced)) == len(forced):
+            bump("forced_known_distinct")
             if effs != list(range(len(ks))) or forced != sorted(forced):
                 bad.append(("forced-ranking", "%s: forced efficiencies %r known and distinct but efficiencies %r" % (where, forced, effs)))
         prev = d
